@@ -32,7 +32,11 @@ VARIANTS = {
     "asan": ["-O1", "-fsanitize=address,undefined",
              "-fno-sanitize-recover=undefined", "-DZSIM_ASAN=1",
              # ASan also sees accesses between size() and capacity() of a vector
-             "-D_GLIBCXX_SANITIZE_VECTOR=1"],
+             "-D_GLIBCXX_SANITIZE_VECTOR=1",
+             # automatic variables without an initialiser hold 0xFE bytes here
+             # and whatever the stack held in the plain build: a result that
+             # depends on one differs between the two builds (C13 divergence oracle)
+             "-ftrivial-auto-var-init=pattern"],
     "plain": ["-O2", "-DZSIM_ASAN=0"],
 }
 LINK = {
